@@ -85,7 +85,7 @@ def remove_task(ap, path):
 
 
 def run(ctx, prop, props_files, fams, oracle_names, assumptions, level_rule, model=True, extra_cases=None, extra_oracle=None,
-        post=None, model_is_oracle=False):
+        post=None, model_is_oracle=False, all_scenarios=False):
     nob, ndis, failing, files = common.obligations(ctx, props_files)
     aps = load_corpus(prop)
     ncorp = len(aps)
@@ -110,7 +110,8 @@ def run(ctx, prop, props_files, fams, oracle_names, assumptions, level_rule, mod
                     bad.append((ap, f, r))
             continue
         obs = r["obs"]
-        for sc in obs["scenarios"][:1]:
+        for sc in (obs["scenarios"] if all_scenarios and ap.get("scenario_lines") else obs["scenarios"][:1]):
+            stats["scenarios_checked"] += 1
             stats["tasks"] += len(sc["tasks"])
             stats["scheduled_leaves"] += sum(1 for t in sc["tasks"].values() if t["leaf"] and t["sched"])
             stats["ledger_entries"] += sum(len(e) for sl in sc["ledger"].values() for e in sl.values())
